@@ -1668,7 +1668,9 @@ class Wtp:
                         parts.append(self._unexpanded_arg(args, nowiki))
                         continue
                     self.expand_stack.append("ARGVAL-NO-TEMPLATE")
-                    t = expand_args(ch, {})
+                    # An undefined argument falls back to its default value,
+                    # which may itself contain calls to expand
+                    t = expand_recurse(expand_args(ch, {}), parent, expand_all)
                     self.expand_stack.pop()
                     parts.append(t)
                     continue
